@@ -339,18 +339,21 @@ fn search(depth: usize, nrandom: usize, seed: u64, filter: &str) -> i32 {
         // big-bucket scripts: many entries on few distinct timestamps of one bucket (long lists, many ties)
         let big = i % 7 == 5;
         let (n, t) = if big { if rnd() % 2 == 0 { (1usize, 3u128) } else { (2usize, 8u128) } } else { (n, t) };
+        // flood scripts: far more than 64 events pending for the current instant (the zero-event bucket is preallocated with 64)
+        let flood = i % 7 == 1;
+        let len = if flood { 120 + (rnd() % 120) as usize } else { len };
         let mut script: Vec<Op> = vec![];
         let mut now = 0u128; let mut zero = 0usize; let mut rest: Vec<u128> = vec![]; let mut adds = 0usize;
         let mut last_add = 0u128;
         for _ in 0..len {
             let r = rnd() % 100;
-            let op = if r < (if big { 85 } else if burst { 70 } else { 50 }) {
-                let tm = if big { now + 1 + (rnd() % 4) as u128 } else if burst && rnd() % 2 == 0 && last_add >= now { last_add }
+            let op = if r < (if big || flood { 85 } else if burst { 70 } else { 50 }) {
+                let tm = if flood && rnd() % 8 != 0 { now } else if big { now + 1 + (rnd() % 4) as u128 } else if burst && rnd() % 2 == 0 && last_add >= now { last_add }
                     else if far { let base = if now > far_base { now } else { far_base }; base + (rnd() % 8) as u128 * t + (rnd() % 3) as u128 }
                     else { now + offs[(rnd() % offs.len() as u64) as usize] + if rnd() % 4 == 0 { (rnd() as u128) % (3 * n as u128 * t + 1) } else { 0 } };
                 last_add = tm;
                 Op::Add(tm)
-            } else if r < 80 { Op::Fetch } else if r < 90 && adds > 0 { Op::Cancel((rnd() % adds as u64) as usize) } else { Op::Peek };
+            } else if r < 80 || ((big || flood) && r < 96) { Op::Fetch } else if r < 90 && adds > 0 { Op::Cancel((rnd() % adds as u64) as usize) } else { Op::Peek };
             match op {
                 Op::Add(tm) => { adds += 1; if tm == now { zero += 1 } else { rest.push(tm) } }
                 Op::Fetch => { if zero > 0 { zero -= 1 } else if !rest.is_empty() { let mi = (0..rest.len()).min_by_key(|&i| rest[i]).unwrap(); now = rest.remove(mi); } }
